@@ -32,7 +32,9 @@ pub struct Got {
 
 /// Distinct files used as fds (identity = (dev, ino)).
 pub fn fd_files() -> Vec<OwnedFd> {
-    ["/dev/null", "/dev/zero", "/dev/full", "/dev/urandom", "/dev/random", "/dev/tty"]
+    // (not /dev/tty: it only opens when the process has a controlling terminal, and the ENXIO it returns otherwise is
+    // an I/O error Miri cannot represent, which aborted the Miri layer when the check ran without a terminal)
+    ["/dev/null", "/dev/zero", "/dev/full", "/dev/urandom", "/dev/random"]
         .iter()
         .filter_map(|p| std::fs::File::open(p).ok())
         .map(OwnedFd::from)
@@ -132,7 +134,9 @@ pub fn run_case(seed_rng: &mut Rng, sent: &[(Vec<u8>, Vec<OwnedFd>)], cuts: &[us
     wire.lock().eof_at_end = true;
     let w2 = wire.clone();
     sched.add_net(Box::new(move || w2.release_one()));
-    let quiescent = sched.run_to_quiescence();
+    // long streams cut into tiny chunks legitimately need more than the default step bound
+    let w3 = wire.clone();
+    let quiescent = sched.run_to_quiescence_while(move || w3.io_progress());
     let fp = sched.fingerprint();
     let notes = format!("steps={} ex={} net={} recv_calls={} trace={}", sched.steps, sched.ex_ticks, sched.net_events, wire.lock().recv_calls, sched.trace_string());
     drop(sched);
@@ -289,6 +293,12 @@ pub fn run(ctx: &mut Ctx) {
         }
         cuts.sort();
         cuts.dedup();
+        if ctx.args.layer == "miri" && cuts.len() > 1500 {
+            // the interpreter is ~10^4 times slower: tens of thousands of 2-byte reads take the better part of an hour
+            // there; keep every k-th cut (the monitor layers run the dense plans)
+            let k = cuts.len() / 1500 + 1;
+            cuts = cuts.into_iter().step_by(k).collect();
+        }
         let bias = *rng.pick(&[(4u64, 3u64, 2u64), (1, 1, 8), (8, 1, 1), (1, 8, 1), (2, 2, 2)]);
         let sent: Vec<Sent> = sent_raw.iter().map(|(b, f)| Sent { bytes: b.clone(), fd_ids: f.iter().map(|x| dev_ino(x.as_fd())).collect() }).collect();
         let note = format!("stream n={nm} bytes={total} plan={plan}");
